@@ -400,6 +400,130 @@ def gen_payload(rng, pl, idx):
     return f"tor{dots}{idx}", False, tree, classes
 
 
+# ------------------------------------------------------------------------------------------ payloads at SCALE
+# Rebuild reads candidates piece by piece, hashes whole candidates (v2 route) and copies them: code that maps, buffers or copies
+# through fixed windows (1 MiB and its neighbours 4 / 8 MiB) goes wrong only for candidates of about a MiB and more, and for
+# piece lengths above the window.  The small streams use 16 / 32 KiB pieces and files of a few pieces; these use piece lengths
+# of 256 KiB .. 4 MiB (thorough tier: up to 16 MiB through harness/scale.py) and files of 1 .. 6 MiB.  End-to-end searches only
+# (reference oracle, hashlib): nothing of this goes to the extracted models.
+KIB, MIB = 1 << 10, 1 << 20
+# (piece length, file sizes in listing order, what it is aimed at)
+SCALE_TEMPLATES = [
+    (256 * KIB, [MIB + 5000, 300, 1234, 512 * KIB, 70000], "file just above 1 MiB whose tail shares a 256 KiB piece with small files"),
+    (2 * MIB, [3 * MIB + 100, 70000], "2 MiB pieces: file of a piece and a half, more than 1 MiB of the last piece unused"),
+    (MIB, [MIB, 100, 2 * MIB + 1, 7], "1 MiB pieces: a file of exactly 1 MiB, a file of 2 MiB + 1, small files between and after"),
+    (2 * MIB, [MIB + 5000, 300, 2000], "2 MiB pieces: the whole torrent is one piece, first file just above 1 MiB"),
+    (512 * KIB, [100, 2 * MIB - 1, 1, MIB + 1], "small file first; sizes one byte either side of a multiple of 1 MiB"),
+    (2 * MIB, [3 * MIB, 2 * MIB + MIB // 2], "file sizes multiples of 1 MiB / 512 KiB but not of the 2 MiB piece length"),
+    (4 * MIB, [5 * MIB, 1000, 4 * MIB + 1], "4 MiB pieces: tails of 1 MiB and of one byte, a small file between"),
+    (4 * MIB, [4 * MIB + MIB // 2 + 7], "single file, 4 MiB pieces, last piece just above 512 KiB"),
+    (2 * MIB, [MIB + 512 * KIB + 7], "single file above 1 MiB that is shorter than the 2 MiB piece"),
+    (256 * KIB, [70000, 4 * MIB + 123, 0, 5], "256 KiB pieces: big file after a small one, an empty file and a tiny file in its last piece"),
+    (MIB, [6 * MIB - 1, 1, MIB + 1], "1 MiB pieces: file one byte short of 6 MiB completed by a one-byte file"),
+    (4 * MIB, [2 * MIB + 5, 3 * MIB + 300, 1], "4 MiB pieces: two files above 1 MiB inside the first piece"),
+]
+SCALE_LAYOUTS = [
+    ["00_big.bin", "01_note.txt", "02_readme.md", "03_exact.bin", "04_tail.bin"],
+    ["00_a/00_big.bin", "00_a/01_note.txt", "00_a/02_readme.md", "50_b/00_exact.bin", "50_b/01_tail.bin"],
+    ["00_a/00_s/00_big.bin", "00_a/00_s/01_note.txt", "00_a/10_readme.md", "50_b/00_exact.bin", "50_b/00_t/tail.bin"],
+    ["00_cd..1/00_big.bin", "00_cd..1/01_x y", "10_é.md", "50_b/note.txt", "50_b/tail.bin"],
+]
+SCALE_KINDS_V1 = ["v1", "ref1"]
+SCALE_KINDS_V2 = ["ref2", "hybrid-class", "ref3", "v2-class", "hybrid-asm", "v2-asm"]
+
+
+def scale_plan(thorough, profile="scale"):
+    """the case profiles of a scale stream: every template once through a v1 metafile and once through a v2 / hybrid metafile
+       (creators and reference encoder in turn); thorough: every template with every kind, random shapes, harness/scale.py shapes"""
+    out = []
+    n = len(SCALE_TEMPLATES)
+    if not thorough:
+        for j in range(n):
+            out.append(f"{profile}:{j}:{SCALE_KINDS_V1[j % 2]}")
+            out.append(f"{profile}:{j}:{SCALE_KINDS_V2[j % 6]}")
+        out += [f"{profile}:r:"] * 4
+        return out
+    for j in range(n):
+        for k in ALL_KINDS:
+            out.append(f"{profile}:{j}:{k}")
+    out += [f"{profile}:r:"] * 60
+    import scale
+    out += [f"{profile}:g{j}:" for j in range(len(scale.templates()))] + [f"{profile}:g{len(scale.templates()) + j}:" for j in range(6)]
+    return out
+
+
+def scale_payload(rng, variant, idx):
+    """variant '<template index>|r|g<i>' ':' '<kind>|': returns (pl, name, single, tree, classes, kind or None)"""
+    which, _, kind = variant.partition(":")
+    cl = {"payload at scale"}
+    if which.startswith("g"):
+        import scale
+        pl, tree, scl = scale.gen(rng, int(which[1:]), single_ok=True, max_total=24 * MIB)
+        single = list(tree) == [()]
+        cl |= scl
+        return pl, f"big{idx}" + (".bin" if single else ""), single, tree, cl, kind or None
+    if which == "r" or which == "":
+        pl = rng.choice([256 * KIB, 512 * KIB, MIB, 2 * MIB, 2 * MIB, 4 * MIB])
+        sizes, total = [], 0
+        for _ in range(rng.randrange(1, 5)):
+            if rng.random() < 0.3:
+                n = rng.choice([0, 1, 300, 70000, pl // 2, pl - 1])
+            else:
+                n = rng.randrange(0, 6) * MIB + rng.choice([0, 1, 123, 5000, MIB // 2, MIB - 1, rng.randrange(MIB)])
+            if total + n > 14 * MIB:
+                n = rng.choice([1000, MIB + 1])
+            sizes.append(n)
+            total += n
+        if not any(n > MIB for n in sizes):
+            sizes[rng.randrange(len(sizes))] = MIB + rng.choice([1, 5000, MIB // 2, pl + 9])
+        if len(sizes) > 1:
+            rng.shuffle(sizes)
+        aim = "random sizes k MiB + r"
+    else:
+        pl, sizes, aim = SCALE_TEMPLATES[int(which)]
+    cl.add("scale: " + aim)
+    if len(sizes) == 1:
+        return pl, f"big{idx}.bin", True, {(): rng.randbytes(sizes[0])}, cl | {"single file"}, kind or None
+    names = rng.choice(SCALE_LAYOUTS)
+    tree = {tuple(nm.split("/")): rng.randbytes(n) for nm, n in zip(names, sizes)}
+    cl |= {"structured layout", "nested" if any(len(c) > 1 for c in tree) else "flat"}
+    return pl, f"big{idx}", False, tree, cl, kind or None
+
+
+def scale_classes(t):
+    """what the metafile's own layout exhibits at scale (computed from the layout the reference reads, not from the template)"""
+    cl = set()
+    pl = t["pl"]
+    ents = [e for e in t["layout"] if e["rel"] is not None]
+    route = t["views"][0]
+    cl.add("scale: piece length %s, %s route" % ("%d KiB" % (pl // KIB) if pl < MIB else "%d MiB" % (pl // MIB), route))
+    for e in ents:
+        n = e["length"]
+        if n >= MIB:
+            cl.add("scale: candidate of exactly k MiB" if n % MIB == 0 else "scale: candidate above 1 MiB, size not a multiple of 1 MiB")
+        if n > 4 * MIB:
+            cl.add("scale: candidate above 4 MiB")
+        if n > 8 * MIB:
+            cl.add("scale: candidate above 8 MiB")
+        if route == "v2" and n > MIB:
+            cl.add("scale: v2 route, candidate above 1 MiB " + ("shorter than a piece" if n <= pl else "of several pieces") +
+                   (", piece length above 1 MiB" if pl > MIB else ""))
+    if route == "v1":
+        for i, e in enumerate(ents):
+            if e["length"] < MIB:
+                continue
+            end = e["offset"] + e["length"]
+            p0 = (end - 1) // pl * pl                 # the piece that holds the last byte of e
+            inside = [x for x in ents if x is not e and x["length"] and x["offset"] >= p0 and x["offset"] + x["length"] <= p0 + pl]
+            if end % pl and e["offset"] < p0 and any(x["offset"] >= end for x in inside):
+                cl.add("scale: v1 piece holds the tail of a candidate of 1 MiB or more and whole later files")
+            if e["offset"] % pl and any(x["offset"] < e["offset"] for x in ents if x["length"] and x["offset"] >= e["offset"] // pl * pl):
+                cl.add("scale: v1 piece holds whole earlier files and the head of a candidate of 1 MiB or more")
+            if e["offset"] >= p0 and end <= p0 + pl:
+                cl.add("scale: v1 candidate of 1 MiB or more wholly inside one piece")
+    return cl
+
+
 def make_metafile(t, workdir):
     """t: torrent dict with name/single/tree/pl/kind; writes payload (tool kinds) and metafile; fills raw/meta"""
     name, tree, pl, kind = t["name"], t["tree"], t["pl"], t["kind"]
@@ -537,13 +661,20 @@ def gen_case(case_seed, profile, workdir, force_mode=None):
     file: C14 only, C13's premise does not hold), 'absent' (v1: a piece spans two files, the later file's NAME exists nowhere
     in the search directories, the earlier file has a wholly different same-size decoy enumerated first: C14 only), 'namesake'
     (directory torrents -- v2, hybrid, v1; creators and reference encoder; single metafiles and batches -- with a top-level FILE
-    named like the torrent beside other files and directories, or a SUB-DIRECTORY named like the torrent).
+    named like the torrent beside other files and directories, or a SUB-DIRECTORY named like the torrent),
+    'scale:<shape>:<kind>' / 'scale14:...' (the first torrent is a payload at SCALE: piece lengths 256 KiB .. 4 MiB -- shapes
+    g<i>: up to 16 MiB -- and candidates of 1 .. 6 MiB aimed at 1 / 4 / 8 MiB windows; see scale_payload / scale_plan; decoys as
+    in c13 / c14).
     Everything is derived from case_seed.  Files are written under workdir.
     force_mode='cli-proc': the unpatched command line in a fresh interpreter (enumeration order of the filesystem).
     """
     rng = random.Random(case_seed)
     case = {"seed": case_seed, "profile": profile, "workdir": workdir, "classes": set(), "force_mode": force_mode}
     cl = case["classes"]
+    # 'scale:<shape>:<kind>' / 'scale14:<shape>:<kind>': the first torrent of the case is a payload at scale (scale_payload);
+    # decoys as in profile c13 / c14; the full text stays the case's profile (a replay regenerates the case from it)
+    profile, _, variant = profile.partition(":")
+    at_scale = profile in ("scale", "scale14")
     boundary = profile in ("boundary", "boundary-only")
     nb = 1 if rng.random() < 0.72 or profile in ("d27", "d28") else rng.choice([2, 2, 3])
     if profile in ("dotted", "namesake") and rng.random() < 0.5:
@@ -562,11 +693,14 @@ def gen_case(case_seed, profile, workdir, force_mode=None):
             kind = "v1-align"
         elif profile == "d27":
             kind = rng.choice(["v1", "ref1"])
-        elif profile == "c14":
+        elif profile in ("c14", "scale14"):
             kind = rng.choice(ALL_KINDS + ["v1", "ref1", "v1-align"])
         else:
             kind = rng.choice(ALL_KINDS + ["v1", "ref1"])
         name, single, tree, pcl = gen_payload(rng, pl, i)
+        if at_scale and i == 0:
+            pl, name, single, tree, pcl, k = scale_payload(rng, variant, i)
+            kind = k or kind
         if profile == "samename":
             # aimed: the same FILE NAME in two directories; the later files start on a piece boundary and are made of whole pieces
             kind = rng.choice(["v1", "ref1"])
@@ -619,6 +753,8 @@ def gen_case(case_seed, profile, workdir, force_mode=None):
         cl.update(pcl)
         cl.add("metafile " + kind)
         cl.update(classify_layout(t))
+        if at_scale and i == 0:
+            cl.update(scale_classes(t))
     case["torrents"] = torrents
 
     # ---- scatter: intact copies of EVERY file under its own file name, decoys, unrelated files
@@ -663,10 +799,10 @@ def gen_case(case_seed, profile, workdir, force_mode=None):
             only_decoy = aimed and (profile == "boundary-only" or (profile == "absent" and rng.random() < 0.3)) and not case.get("only_decoy")
             want_same = want_same or aimed
             want_part = len(data) > t["pl"] and "v1" == t["views"][0] and \
-                ((profile == "c14" and rng.random() < 0.2) or (profile == "d27" and not case.get("partial")))
+                ((profile in ("c14", "scale14") and rng.random() < 0.2) or (profile == "d27" and not case.get("partial")))
             # same name, LONGER than recorded: the genuine bytes followed by junk, enumerated before the genuine file (a size
             # test that lets longer candidates through verifies every piece that ends inside the genuine bytes)
-            want_longer = len(data) > 0 and profile in ("c13", "c14") and rng.random() < (0.5 if len(data) > t["pl"] else 0.2) \
+            want_longer = len(data) > 0 and profile in ("c13", "c14", "scale", "scale14") and rng.random() < (0.5 if len(data) > t["pl"] else 0.2) \
                 and n_longer < 4
             banded = want_same or want_part or want_longer
             root = rng.randrange(nroots)
